@@ -25,7 +25,7 @@ ALL = HEPTA + ["WholeTone", "Octatonic", "Chromatic", "Diatonic"]
 def shards(tier, seed):
     out = []
     for cls in ALL:
-        out.append({"name": "scale-" + cls, "kind": "scale", "cls": cls,
+        out.append({"name": "scale-" + cls, "kind": "scale", "cls": cls, "after_history": cls in ("Major", "Dorian", "Chromatic", "HarmonicMinor"),
                     "acc": 2 if tier == "quick" else 3,
                     "octaves": [1, 2, 3] if tier == "quick" else [1, 2, 3, 4, 5, 6], "weight": 3})
     out.append({"name": "equality", "kind": "eq", "weight": 2})
@@ -130,7 +130,9 @@ def run(shard, ctx):
         cls = shard["cls"]
         n = 0
         for tonic in tonics_for(cls, shard["acc"] - 1 if cls == "Diatonic" else shard["acc"]):
-            for octv in (shard["octaves"][:2] if cls == "Diatonic" else shard["octaves"]):
+            octs = list(shard["octaves"][:2] if cls == "Diatonic" else shard["octaves"])
+            ctx.rng("octave-order:" + tonic).shuffle(octs)      # the first use of a tonic is not always the one-octave scale
+            for octv in octs:
                 if cls == "Diatonic":
                     for sem in T.DIATONIC_SEMITONES:
                         check_scale(ctx, cls, tonic, octv, sem)
